@@ -82,10 +82,28 @@ func H13() {
 	var rec [40]byte
 	rec[0] = b
 	vBytes(rec[1:20])
-	// a definition body, used when b is a definition header:
-	// reserved, arch=big, message 18 (session) big-endian, 1 field (254, 2 bytes, uint16) [+ 1 developer field]
+	// a definition body, used when b is a definition header. defkind 0:
+	// reserved, arch=big, message 18 (session) big-endian, 1 field (254, 2 bytes, uint16) [+ 1 developer field];
+	// defkind 1: the layout the slot already has (same message, same field) but
+	// the opposite byte order; defkind 2: exactly the definition the slot has.
 	body := []byte{0, 1, 0, 18, 1, 254, 2, 0x84, 1, 7, 3, 0}
 	isDef := b&0x80 == 0 && b&0x40 != 0
+	defkind := vParam("defkind")
+	wantArch, wantMsg, wantFd := vArch(true), MesgNumSession, fieldDef{num: 254, size: 2, btype: types.BaseUint16}
+	if isDef && defkind > 0 {
+		k := int(b & 0x0F)
+		bigNow := k%2 == 1
+		bigNew := bigNow
+		if defkind == 1 {
+			bigNew = !bigNow
+		}
+		g := uint16(vSlotMsgs[k])
+		body = []byte{0, 0, byte(g), byte(g >> 8), 1, 250, byte(k + 1), 0x0D, 1, 7, 3, 0}
+		if bigNew {
+			body[1], body[2], body[3] = 1, byte(g>>8), byte(g)
+		}
+		wantArch, wantMsg, wantFd = vArch(bigNew), vSlotMsgs[k], fieldDef{num: 250, size: byte(k + 1), btype: types.BaseByte}
+	}
 	isCompressed := b&0x80 != 0
 	slot := int(b & 0x0F)
 	if isCompressed {
@@ -116,8 +134,8 @@ func H13() {
 		for k := 0; k < 16; k++ {
 			if k == slot {
 				dm := d.defmsgs[k]
-				ok := dm != nil && dm != before[k].p && dm.localMsgType == uint8(k) && dm.arch == be && dm.globalMsgNum == MesgNumSession &&
-					dm.fields == 1 && len(dm.fieldDefs) == 1 && dm.fieldDefs[0] == fieldDef{num: 254, size: 2, btype: types.BaseUint16}
+				ok := dm != nil && dm.localMsgType == uint8(k) && dm.arch == wantArch && dm.globalMsgNum == wantMsg &&
+					dm.fields == 1 && len(dm.fieldDefs) == 1 && dm.fieldDefs[0] == wantFd
 				vAssert(ok, "C13.def.replaces-its-slot")
 				if dm != nil {
 					if b&0x20 != 0 {
